@@ -44,7 +44,7 @@ type WorldConfig struct {
 
 // ChainNames are the XIBC names of the world's chains (distinct from the
 // Tendermint chain ids on purpose).
-var ChainNames = []string{"alpha-net", "beta.net", "gamma_net", "delta#4"}
+var ChainNames = []string{"alpha-net", "beta.net", "Gamma_net", "delta#4"}
 
 // NewWorld builds the chains, names the packet contracts, creates the client
 // mesh and registers every relayer for every counterparty.
